@@ -3,6 +3,7 @@ import ast
 import datetime as _dt
 from ..common import calls_in, norm, VEC, kw
 from ..model import AnalysisError, body_nodes
+from ..dataflow import defs_reaching
 from ..facts import facts_at
 from ..guards import partial_sites, discharge_reduction
 from ..signatures import name_uses
@@ -163,6 +164,16 @@ def check(ctx):
                  and len(n.targets[0].elts) == 2 and isinstance(n.value, ast.Call) and norm(n.value.func) == "_prep"]
         outn = norm(preps[0].targets[0].elts[0]) if preps else "out"
         nan = norm(preps[0].targets[0].elts[1]) if preps else "na"
+        if not preps:
+            # the preparation written out in the function itself: out = np.full_like(string, default, dtype); na = string == <NA>
+            fl = [n for n in body_nodes(f.node) if isinstance(n, ast.Assign) and isinstance(n.targets[0], ast.Name)
+                  and isinstance(n.value, ast.Call) and repo.dotted(f, n.value.func) == "numpy.full_like"]
+            nm = [n for n in body_nodes(f.node) if isinstance(n, ast.Assign) and isinstance(n.targets[0], ast.Name)
+                  and isinstance(n.value, ast.Compare) and norm(n.value).endswith("== dtypes.string.na_object")]
+            if len(fl) != 1 or len(nm) != 1:
+                raise AnalysisError(f"{f.qualname}: neither `out, na = _prep(...)` nor an inline default-filled array and NA mask found")
+            outn, nan = norm(fl[0].targets[0]), norm(nm[0].targets[0])
+            preps = [fl[0]]
         ok = len(loops) == 1 and norm(loops[0].iter) == f"np.flatnonzero(~{nan})"
         ctx.ob("SIB-17", f, f"loop over {norm(loops[0].iter) if loops else '?'}", loops[0] if loops else f.node, ok,
                "only non-missing positions are matched" if ok else "the loop does not run over exactly the non-missing positions",
@@ -175,12 +186,36 @@ def check(ctx):
             ok = ok and bool(st) and all(norm(x.targets[0]) == f"{outn}[{li}]" for x in st)
         ctx.ob("SIB-17", f, "out, na = _prep(...); return Vector.fast(out, ...)", f.node, ok,
                "missing positions keep the prepared default" if ok else "output is not the prepared array", nontrivial=False)
+        # every return of the vector branch hands back an array whose missing positions hold the default: the prepared
+        # array itself (only element stores since _prep), or an array that received `X[na] = ...` before the return
+        if preps:
+            from ..common import precedes as _prec
+            for r in rets:
+                if r.value is None or not _prec(f, preps[0], r):
+                    continue
+                got = r.value.args[0] if isinstance(r.value, ast.Call) and r.value.args else r.value
+                if not isinstance(got, ast.Name):
+                    continue
+                ds = defs_reaching(f, got.id, r)
+                from_prep = bool(ds) and all(d.node is not None and d.node.ast is preps[0] for d in ds)
+                masked = any(isinstance(n, ast.Assign) and isinstance(n.targets[0], ast.Subscript) and norm(n.targets[0].value) == got.id
+                             and norm(n.targets[0].slice) == nan and _prec(f, n, r) for n in body_nodes(f.node))
+                okr = from_prep or masked
+                ctx.ob("SIB-17", f, f"return {norm(r.value)[:50]}: {got.id} holds the default at missing positions", r, okr,
+                       "the returned array is the one _prep filled with the default (or was masked with the NA positions)" if okr else
+                       f"{got.id} is rebound after _prep ({'; '.join(norm(d.node.ast)[:60] for d in ds if d.node is not None and d.node.ast is not None)}) and "
+                       f"returned without `{got.id}[{nan}] = ...`: on that path the missing positions are computed like ordinary strings "
+                       f"instead of staying missing", clause="a missing value elsewhere")
     ctx.count("regex functions", n_re, 7)
-    prep = repo.fn("dataiter.regex._prep")
-    ok = any(pmatch(f"{prep.params[0]} == dtypes.string.na_object", n.value) is not None for n in body_nodes(prep.node) if isinstance(n, ast.Assign)) and \
+    prep = repo.functions.get("dataiter.regex._prep")
+    if prep is None:
+        ctx.note("SIB-17: no _prep helper; each function prepares its default-filled output and NA mask itself (checked per function)")
+    ok = prep is None or any(pmatch(f"{prep.params[0]} == dtypes.string.na_object", n.value) is not None for n in body_nodes(prep.node) if isinstance(n, ast.Assign)) and \
         any(repo.dotted(prep, c.func) == "numpy.full_like" and len(c.args) >= 2 and norm(c.args[1]) == prep.params[2] for _, c in calls_in(prep))
-    ctx.ob("SIB-17", prep, "out = full_like(string, default); na = string == na_object", prep.node, ok,
-           "default fill and NA mask of the string dtype" if ok else "_prep no longer prepares default-filled output and the NA mask", nontrivial=False)
+    if prep is not None:
+        ctx.ob("SIB-17", prep, "out = full_like(string, default); na = string == na_object", prep.node, ok,
+               "default fill and NA mask of the string dtype" if ok else "_prep no longer prepares default-filled output and the NA mask",
+               nontrivial=False)
     # --------------------------------------------------------------- SIB-18
     n_ex = 0
     for f in dtm.functions.values():
